@@ -558,6 +558,20 @@ theorem scan_invariant_under_json (core : List (Record W) → Findings W T)
   cases hd
   exact scan_strip core hcore r
 
+/-- The JSON form does not depend on the `json:"-"` fields (PackageDB, Filepath,
+    RepositoryHint, Files): a report and its stripped form encode to the same document. -/
+theorem index_report_json_ignores_hidden (r : IndexReport W) :
+    encIR (stdLeaves wfn time) (stripIR r) = encIR (stdLeaves wfn time) r :=
+  encIR_strip _ r
+
+/-- Outside the statement, recorded because the harness sees it on the real
+    code: a document that decodes without error can still make `IndexRecords`
+    (and so a scan) dereference nil — `{"packages":{"1":null}}`. -/
+theorem index_records_nil_entry_counterexample :
+    ∃ r, decIR (stdLeaves wfn time) (.obj [(kPackages, .obj [([49], .null)])]) = some r ∧
+      indexRecords r = none :=
+  ⟨_, rfl, rfl⟩
+
 /-- The hypothesis on the manifest digest is needed: a report with the zero
     Digest encodes (as "") but does not decode (finding `digest-zero-value`). -/
 theorem index_report_zero_hash_counterexample :
